@@ -69,6 +69,7 @@ def _quantifier(atom, pol, loops):
 
 def run(ctx):
     repo = ctx.repo
+    _gateset_fallback_is_exhaustive(ctx, repo)
     ctx.decided += [
         'C07.a device validators: gateset test, universally quantified qubit test, pair/distance test where applicable, super() chaining',
         'C07.b router: mapped two-qubit ops appended only under is_adjacent; every emitted swap is applied to the mapping; both maps updated together under an adjacency check',
@@ -695,3 +696,50 @@ def _pasqal_distance_rule(ctx, repo):
         ok = got is not None and abs(float(got) - want) < 1e-9
         ctx.ob('C07.f', f'{tq.qual}.distance:{a}-{b}', ok, '' if ok else f'ThreeDQubit.distance gives {got}, Euclidean distance is {want:.6f}', tq.mod.rel, tfn.lineno,
                construct=f'{tq.qual}.distance')
+
+
+def _gateset_fallback_is_exhaustive(ctx, repo, rid='C07.j'):
+    """Gateset.__contains__: the final, exhaustive search ranges over the complete family collection, not over an index keyed by gate."""
+    ci = repo.cls('cirq.ops.gateset.Gateset')
+    ctx.decided.append(f'{rid} the exhaustive fallback of Gateset.__contains__ iterates a field that holds every family handed to the constructor (never the values of an index keyed by gate)')
+    ctx.rule(rid, 'exhaustive fallback over all families: the families iterated by the last resort of Gateset.__contains__ come from a field that __init__ assigns from the complete list of '
+             'families (frozenset / tuple / list of it); the per-gate indexes (`self.<d>[g.gate] = g`) keep one family per gate, so two families of the same gate - the phase-ignoring '
+             'and the exact CZ of every Google GridDevice - collapse and an operation one of them accepts is refused', floor=1, style='EFF')
+    init, cont = ci.methods.get('__init__'), ci.methods.get('__contains__')
+    if init is None or cont is None:
+        raise AnalysisError('Gateset.__init__ / __contains__ vanished')
+
+    def is_self_attr(t):
+        return isinstance(t, ast.Attribute) and isinstance(t.value, ast.Name) and t.value.id == 'self'
+    keyed = {t.value.attr for st in ast.walk(init) if isinstance(st, ast.Assign) for t in st.targets
+             if isinstance(t, ast.Subscript) and is_self_attr(t.value)}
+    # fields whose value in __init__ is computed from a keyed index (values() of it, a union of such)
+    changed = True
+    while changed:
+        changed = False
+        for st in ast.walk(init):
+            if isinstance(st, (ast.Assign, ast.AnnAssign)) and st.value is not None:
+                for t in (st.targets if isinstance(st, ast.Assign) else [st.target]):
+                    if is_self_attr(t) and t.attr not in keyed and any(is_self_attr(x) and x.attr in keyed for x in ast.walk(st.value)):
+                        keyed.add(t.attr)
+                        changed = True
+    # the exhaustive searches of __contains__: any(... for f in <source>) / for f in <source> whose body tests `item in f`
+    n = 0
+    for x in ast.walk(cont):
+        gens = []
+        if isinstance(x, ast.Call) and call_name(x) == 'any' and x.args and isinstance(x.args[0], (ast.GeneratorExp, ast.ListComp)):
+            gens = [(g.iter, x.args[0].elt) for g in x.args[0].generators]
+        elif isinstance(x, ast.For):
+            gens = [(x.iter, ast.Module(body=x.body, type_ignores=[]))]
+        for src, body in gens:
+            fields = {a.attr for a in ast.walk(src) if is_self_attr(a)}
+            if not fields or not any(isinstance(c, ast.Compare) and any(isinstance(o, ast.In) for o in c.ops) for c in ast.walk(body)):
+                continue
+            # the minuend / base collection is the first self field of the expression
+            base = next(a.attr for a in ast.walk(src) if is_self_attr(a))
+            n += 1
+            bad = base in keyed
+            ctx.ob(rid, f'{ci.qual}.__contains__:search-over-{base}', not bad, '' if not bad else
+                   f'`{ast.unparse(src)[:80]}`: `{base}` is (built from) a dictionary keyed by gate, which keeps one family per gate; the search is not exhaustive', ci.mod.rel, x.lineno)
+    if n == 0:
+        raise AnalysisError('Gateset.__contains__: no search over the stored families found')
